@@ -117,29 +117,95 @@ def gen_force_params(ctx=None, repo=REPO, lean=LEAN):
         problems.append("only %d ForceImpl subclasses found" % len(classes))
     if len(set(names)) != len(names):
         problems.append("duplicate class names")
-    # Force::Gravity: every State-taking setter that writes the parameters must invalidate the force cache first
+    # Force::Gravity: every State-taking setter that writes the parameters must invalidate the force cache first.
+    # Structural: within every function body (setters and the GravityImpl helpers they call) each write site
+    # (`updParameters(`, or a call of a helper that writes without dominating invalidation of its own) must be
+    # dominated by an invalidation site (`invalidateForceCache(`): earlier in the text, in the same or an enclosing
+    # block, and not the body of a brace-less if/else/for/while.
     gfile = os.path.join(srcdir, "Force_Gravity.cpp")
     setters = []
     if gfile in texts:
         gt = texts[gfile]
-        helper_ok = False
-        hm = re.search(r"\bsetMobodIsImmune\s*\(\s*State\s*&[^)]*\)\s*const\s*\{", gt)
-        if hm:
-            hb, _ = body_at(gt, hm.end() - 1)
-            helper_ok = "invalidateForceCache(" in hb and hb.find("invalidateForceCache(") < hb.find("updParameters(")
-        for mm in re.finditer(r"Force::Gravity::\s*(set\w+)\s*\(\s*State\s*&[^)]*\)\s*const\s*\{", gt):
+        funcs = {}
+        for mm in re.finditer(r"\b(\w+)\s*\(([^()]*\bState\s*&[^()]*)\)\s*(?:const\s*)?(?:override\s*)?\{", gt):
+            nm = mm.group(1)
+            if nm in ("if", "for", "while", "switch", "catch"):
+                continue
             b, _ = body_at(gt, mm.end() - 1)
-            writes = "updParameters(" in b or "setMobodIsImmune(" in b
-            inval = False
-            if "updParameters(" in b:
-                inval = "invalidateForceCache(" in b and b.find("invalidateForceCache(") < b.find("updParameters(")
-            elif "setMobodIsImmune(" in b:
-                inval = helper_ok
-            setters.append((mm.group(1), gt.count("\n", 0, mm.start()) + 1, writes, inval))
+            pre = gt[max(0, mm.start() - 40):mm.start()]
+            funcs.setdefault(nm, []).append(dict(body=b, line=gt.count("\n", 0, mm.start()) + 1,
+                                                 public=bool(re.search(r"Force::Gravity::\s*$", pre)),
+                                                 mutable="const State" not in mm.group(2)))
+
+        def sites(body, pat):
+            """(offset, block path, conditional-single-statement?) of every match of pat in body"""
+            res = []
+            for m2 in re.finditer(pat, body):
+                path, stack, nblocks = [], [], 0
+                for i, ch in enumerate(body[:m2.start()]):
+                    if ch == "{":
+                        nblocks += 1; stack.append(nblocks)
+                    elif ch == "}" and stack:
+                        stack.pop()
+                path = tuple(stack)
+                st = max(body.rfind(";", 0, m2.start()), body.rfind("{", 0, m2.start()), body.rfind("}", 0, m2.start())) + 1
+                cond = bool(re.match(r"\s*(if|else|for|while)\b", body[st:m2.start()]))
+                res.append((m2.start(), path, cond))
+            return res
+
+        def analyse(name, seen=()):
+            """(writes, every write dominated by an invalidation) for all overloads of `name`"""
+            writes, ok = False, True
+            for fn in funcs.get(name, []):
+                b = fn["body"]
+                inv = [x for x in sites(b, r"\binvalidateForceCache\s*\(") if not x[2]]
+                wr = list(sites(b, r"\bupdParameters\s*\("))
+                for h in funcs:
+                    if h in (name, "updParameters", "invalidateForceCache") or h in seen:
+                        continue
+                    hs = sites(b, r"\b%s\s*\(" % re.escape(h))
+                    if hs:
+                        hw, hok = analyse(h, seen + (name,))
+                        if hw and not hok:
+                            wr += hs            # an unprotected write inside the helper
+                        elif hw:
+                            writes = True       # protected by the helper itself
+                for (wo, wp, _) in wr:
+                    writes = True
+                    if not any(io < wo and wp[:len(ip)] == ip for (io, ip, _) in inv):
+                        ok = False
+            return writes, ok
+
+        for nm, lst in sorted(funcs.items()):
+            pub = [fn for fn in lst if fn["public"] and fn["mutable"] and nm.startswith("set")]
+            if pub:
+                w, ok = analyse(nm)
+                setters.append((nm, pub[0]["line"], w, w and ok))
         if len(setters) < 4:
             problems.append("only %d Force::Gravity state setters found" % len(setters))
     else:
         problems.append("Force_Gravity.cpp not found")
+    # matter subsystem: the cache entries allocated with prerequisites
+    mfile = os.path.join(srcdir, "SimbodyMatterSubsystemRep.cpp")
+    mentries = []
+    if mfile in texts:
+        mt = texts[mfile]
+        ncalls = len(re.findall(r"allocateCacheEntryWithPrerequisites\s*\(", mt))
+        for mm in re.finditer(r"tc\.(\w+)\s*=\s*\w+\.allocateCacheEntryWithPrerequisites\s*\(\s*getMySubsystemIndex\s*\(\s*\)\s*,"
+                              r"\s*Stage::(\w+)\s*,\s*Stage::(\w+)\s*,\s*(true|false)\s*,\s*(true|false)\s*,\s*(true|false)\s*,"
+                              r"\s*\{([^{}]*)\}\s*,\s*\{((?:[^{}]|\{[^{}]*\})*)\}\s*,\s*new\b", mt):
+            if mm.group(7).strip():
+                problems.append("matter entry %s has discrete-variable prerequisites (not modelled)" % mm.group(1))
+            pre = re.findall(r"tc\.(\w+)", mm.group(8))
+            if len(pre) != len(re.findall(r"CacheEntryKey\s*\(", mm.group(8))):
+                problems.append("matter entry %s: prerequisite list not understood" % mm.group(1))
+            mentries.append(dict(name=mm.group(1), dep=SN[mm.group(2)], comp=SN[mm.group(3)], q=mm.group(4), u=mm.group(5),
+                                 z=mm.group(6), pre=pre, line=mt.count("\n", 0, mm.start()) + 1))
+        if len(mentries) != ncalls or not mentries:
+            problems.append("%d of %d allocateCacheEntryWithPrerequisites calls of the matter subsystem understood"
+                            % (len(mentries), ncalls))
+    else:
+        problems.append("SimbodyMatterSubsystemRep.cpp not found")
     setters.sort()
     L = ["/-!", "GENERATED by checks/C16.py (`SPEC['gen']`) from /repo/Simbody/src on every run -- do not edit.",
          "One row per subclass of ForceImpl: value returned by dependsOnlyOnPositions() (`none` = delegated to user",
@@ -163,6 +229,15 @@ def gen_force_params(ctx=None, repo=REPO, lean=LEAN):
           "def gravitySetters : List (String × Bool × Bool) := ["]
     L.append(",\n".join("  -- Simbody/src/Force_Gravity.cpp:%d\n  (\"%s\", %s, %s)" % (ln, n, str(w).lower(), str(i).lower())
                         for n, ln, w, i in setters))
+    L += ["]", "",
+          "/-- cache entries the matter subsystem allocates with prerequisites (SimbodyMatterSubsystemRep.cpp,",
+          "realizeSubsystemTopologyImpl): depends-on / computed-by stage, q/u/z prerequisites, prerequisite entries -/",
+          "structure MEntry where", "  name : String", "  dep : Nat", "  comp : Nat", "  q : Bool", "  u : Bool", "  z : Bool",
+          "  pre : List String", "deriving Repr, DecidableEq", "",
+          "def matterEntries : List MEntry := ["]
+    L.append(",\n".join("  -- Simbody/src/SimbodyMatterSubsystemRep.cpp:%d\n  { name := \"%s\", dep := %d, comp := %d, q := %s, u := %s, "
+                        "z := %s, pre := [%s] }" % (e["line"], e["name"], e["dep"], e["comp"], e["q"], e["u"], e["z"],
+                                                    ", ".join('"%s"' % x for x in e["pre"])) for e in mentries))
     L += ["]", "", "/-- structural self-checks of the extraction passed -/",
           "def extractionOK : Bool := %s" % ("true" if not problems else "false")]
     for p in problems:
@@ -175,7 +250,8 @@ def gen_force_params(ctx=None, repo=REPO, lean=LEAN):
         open(p, "w").write(out)
     bad = [c["name"] for c in classes if c["pos"] == "some true" and any(s > 5 for s in c["params"])]
     return dict(classes=len(classes), problems=problems, position_only_with_late_params=bad,
-                gravity_setters=[(n, w, i) for n, _, w, i in setters])
+                gravity_setters=[(n, w, i) for n, _, w, i in setters],
+                matter_entries=[e["name"] for e in mentries])
 
 
 SPEC = dict(
